@@ -40,6 +40,57 @@ def claimed():
     return [p for p in ALL if (HERE / "rules" / f"{p.lower()}.py").exists()]
 
 
+def _findings_through_new_helpers(repo, findings):
+    """-> [(finding, helper qualname)] for findings located in a function that directly calls a repository function which
+    is not in the pinned inventory (sa/baseline_functions.json) and is still present after inlining"""
+    import ast as _ast
+    import re as _re
+
+    from sa.inline import _baseline
+
+    base = _baseline()
+    if base is None or not findings:
+        return []
+    new = {q for q in repo.functions if q.split(".setter")[0] not in base}
+    if not new:
+        return []
+    from sa.sym import SymExec
+
+    followed = set(SymExec.FOLLOWED)  # helpers a symbolic run of this check did interpret
+    out = []
+    for f in findings:
+        m = _re.match(r"(\S+?):(\d+)", f.loc or "")
+        if not m:
+            continue
+        rel, line = m.group(1), int(m.group(2))
+        owner = None
+        for fn in repo.functions.values():
+            if fn.module.relpath == rel and fn.node.lineno <= line <= (fn.node.end_lineno or fn.node.lineno):
+                if owner is None or fn.node.lineno >= owner.node.lineno:
+                    owner = fn
+        if owner is None or owner.qualname in new:
+            # the finding is inside a new helper itself: the rule looked into it, keep
+            continue
+        hit = None
+        for c in repo.calls_in(owner):
+            try:
+                targets = repo.resolve_call(c, owner)[0]
+            except Exception:
+                targets = []
+            for t in targets:
+                if t.qualname in new and not t.qualname.endswith("__aslist") and t.qualname not in followed:
+                    hit = t.qualname
+        # nested functions of the owner that are new closures
+        if hit is None:
+            for nm, nf in getattr(owner, "nested", {}).items():
+                if any(isinstance(c.func, _ast.Name) and c.func.id == nm for c in repo.calls_in(owner)) and nf.qualname in new and owner.qualname in base:
+                    # a closure defined inside a pinned function but not pinned itself
+                    hit = nf.qualname
+        if hit is not None:
+            out.append((f, hit))
+    return out
+
+
 def run_one(prop, tier, root, replay=None, write_ev=True, quiet=False, selftest_info=None):
     mod = rule_module(prop)
     if mod is None:
@@ -72,6 +123,21 @@ def run_one(prop, tier, root, replay=None, write_ev=True, quiet=False, selftest_
         traceback.print_exc()
         print(f"ANALYSIS-ERROR property={prop} internal error {type(e).__name__}: {e}")
         return 2
+
+    # A refutation located in a function that hands part of its work to a helper which is NOT on the pinned tree and
+    # could not be inlined is not a refutation: what the helper does was not followed.  Such findings become "no verdict".
+    try:
+        unfollowed = _findings_through_new_helpers(repo, L.findings)
+    except Exception:
+        unfollowed = []
+    if unfollowed:
+        keep = [f for f in L.findings if f not in [x for x, _ in unfollowed]]
+        for f, hq in unfollowed:
+            print(f"note: {prop}.{f.rule} at {f.construct} not counted: {f.loc.split(' ')[0]} delegates to {hq}(), a helper added after the pinned inventory that the analysis does not follow")
+        if not keep:
+            print(f"ANALYSIS-ERROR property={prop} every refuted obligation lies in code that delegates to helpers the analysis does not follow ({', '.join(sorted({h for _, h in unfollowed}))})")
+            return 2
+        L.findings[:] = keep
 
     known = load_known()
     unlisted, listed = [], []
